@@ -546,6 +546,8 @@ def replay_scenario(doc):
     if not scn:
         return {'reproduced': None, 'detail': 'no scenario (model) attached to this refutation'}
     target, name = doc['function'], doc['obligation']
+    if name.startswith('bounded:'):
+        name = name[len('bounded:'):]
     modname, rest = target.split(':')
     kind = 'plain'
     if rest.endswith(']'):
@@ -625,8 +627,32 @@ def replay_scenario(doc):
         rep['detail'] = f'the object graph rebuilt from the model does not satisfy precondition {pre_failed} natively ' \
                         f'(model truncated or abstraction not representable): replay inconclusive'
         return rep
+    if name == 'all:':
+        # bounded stand-in: every postcondition evaluated natively, undeclared exceptions reported
+        import inspect
+        failed = []
+        if exc is not None:
+            mro = [c.__name__ for c in type(exc).__mro__]
+            if not any(r in mro for r in doc.get('raises', [])):
+                failed.append(f'safe:{type(exc).__name__}')
+        elif ns is not None and ns.get(doc.get('contract_class')) is not None:
+            con_cls = ns.get(doc['contract_class'])
+            bind = dict(params)
+            bind.update({'result': result, 'old': old, 'exc': exc})
+            for cname_ in [n for n in vars(con_cls) if n.startswith('post')]:
+                cfn = getattr(con_cls, cname_)
+                try:
+                    args = {p_: bind[p_] for p_ in inspect.signature(cfn).parameters}
+                    if not cfn(**args):
+                        failed.append('post:' + cname_)
+                except Exception:
+                    pass
+        rep['failed'] = failed
+        rep['reproduced'] = bool(failed)
+        rep['detail'] = f'native run of the real function on a pre-state generated from the precondition: failing {failed}'
+        return rep
     if name.startswith('safe:'):
-        want = name[5:].split('@')[0].replace('(raised)', '')
+        want = name[5:].split('@')[0].split('/')[0].replace('(raised)', '')
         got = type(exc).__name__ if exc else None
         rep['reproduced'] = bool(exc is not None and (got == want or want in [c.__name__ for c in type(exc).__mro__])
                                  and want not in doc.get('raises', []))
@@ -693,7 +719,7 @@ def run_subprocess(doc):
         p = subprocess.run([sys.executable, '-W', 'ignore', '-m', 'pyvc.concrete', path], cwd=VERIF, capture_output=True,
                            text=True, timeout=120, env=env)
         for line in reversed(p.stdout.strip().splitlines()):
-            if line.startswith('{'):
+            if line.startswith('{') or line.startswith('['):
                 return json.loads(line)
         return {'reproduced': None, 'detail': 'replay process gave no result: ' + (p.stderr or p.stdout)[-400:]}
     except Exception as e:
@@ -717,6 +743,16 @@ def replay_doc(doc):
 if __name__ == '__main__':
     sys.path.insert(0, VERIF)
     d = json.load(open(sys.argv[1]))
+    if 'scenarios' in d:     # batch mode (bounded fallback)
+        outs = []
+        for scn in d['scenarios']:
+            one = dict(d, scenario=scn)
+            try:
+                outs.append(replay_scenario(one))
+            except Exception as e:
+                outs.append({'reproduced': None, 'detail': f'replay harness error: {type(e).__name__}: {e}'})
+        print(json.dumps(outs, default=str))
+        sys.exit(0)
     try:
         out = replay_scenario(d)
     except Exception as e:
